@@ -261,3 +261,14 @@ package dns
 //@   modifies H.struct_R_Pbig.Int__S_Pbig.Int_.R.v@val H.struct_R_Pbig.Int__S_Pbig.Int_.S.v@val
 //@ extern (*math/big.Int).SetBytes
 //@   modifies H.big.Int.abs.cap H.big.Int.abs.len H.big.Int.abs.off H.big.Int.abs.ref H.big.Int.neg.v
+
+//@ extern io.ReadFull
+//@   ensures 0 <= ret0 && ret0 <= len(buf) && (ret1 == nil ==> ret0 == len(buf))
+//@   writes buf
+//@ iface net.Conn.Read
+//@   ensures 0 <= ret0 && ret0 <= len(b)
+//@   writes b
+//@ iface net.Conn.LocalAddr
+//@   pure
+//@ iface net.Conn.Write
+//@   pure
